@@ -101,6 +101,15 @@ def genIdx : Nat → List EntryParts → List (Nat × Nat)
   | _, [] => []
   | off, p :: ps => (markerOffsets p).map (fun ko => (ko.1, off + ko.2)) ++ genIdx (off + (genEntry p).length) ps
 
+/-- the 9 marker-info bytes of an index record: kind digit, 8-byte big-endian offset -/
+def recBytes (kind pos : Nat) : Bytes :=
+  (48 + kind) :: (List.range 8).map (fun i => (pos / 256 ^ (7 - i)) % 256)
+
+/-- the index file generation writes for the records `recs`: per record the 9 marker-info bytes
+and their 18 parity bytes (code (27,9)) -/
+def genIdxFile (enc : Nat → Bytes → Bytes) (recs : List (Nat × Nat)) : Bytes :=
+  (recs.map (fun ko => recBytes ko.1 ko.2 ++ enc 9 (recBytes ko.1 ko.2))).flatten
+
 /-- intra-ecc of a metadata field: parity of consecutive blocks of `k` symbols, concatenated -/
 def intraEcc (enc : Nat → Bytes → Bytes) (k : Nat) (field : Bytes) : Bytes :=
   ((layoutHeader k field.length field.length (field.length + 1) 0).map (fun b => enc k (slice field b))).flatten
